@@ -116,6 +116,9 @@ pub mod mem {
     /// BufferedWriter owns vectors and implements Drop: dropping it matters (core::mem::needs_drop is then true)
     #[verifier::external_body]
     pub fn needs_drop<X>() -> (r: bool) ensures r { unimplemented!() }
+    /// std::mem::take on a byte accumulator: returns it and leaves an empty one behind
+    #[verifier::external_body]
+    pub fn take(b: &mut super::Bytes) -> (r: super::Bytes) ensures r.v@ == old(b).v@, final(b).v@.len() == 0 { unimplemented!() }
 }
 
 // ---- expected bytes (from the property statement: per packet the header bytes then the payload, in order)
